@@ -25,6 +25,9 @@ from .. import oputil as U
 NANV = [[0, 0], [0, 0]]
 
 
+# leaf kinds whose own in-place evaluation is not safe under out = x (nothing is demanded of expressions over them)
+ALIAS_UNSAFE_LEAVES = {'swap'}
+
 def check_program(ctx, line, sp, events, profile, stage):
     e = line['prog']
     _js = json.dumps(e)
@@ -102,6 +105,24 @@ def check_program(ctx, line, sp, events, profile, stage):
             except Exception as ex:
                 ctx.violation(dict(sig0, clause='call-raised', mode='in-place', exc=type(ex).__name__),
                               dict(detail0, x=x_abs, exc=str(ex)[:200]))
+            # aliased in-place evaluation: op(x, out=x) must leave the same value in x (the expression classes take
+            # care of this: temporaries, scalar evaluated first, ...). Only asked when every leaf below is alias-safe by
+            # itself (ALIAS_UNSAFE_LEAVES lists the leaf kinds that are not: a user-defined operator, a dense matrix).
+            if line['dom'] == 'V' and os.environ.get('VERIF_C04_ALIAS', '1') == '1' and \
+                    not (U.leaf_kinds(e) & ALIAS_UNSAFE_LEAVES):
+                xa = sp.point('V', x_abs)
+                try:
+                    r = op(xa, out=xa)
+                    obs3, note3 = sp.project('V', xa, D)
+                    if obs3 != exp:
+                        ctx.violation(dict(sig0, clause='value', mode='aliased', leaves='+'.join(sorted(U.leaf_kinds(e)))),
+                                      dict(detail0, x=x_abs, observed=obs3, note=note3, aliased=True))
+                    if r is not xa:
+                        ctx.violation(dict(sig0, clause='in-place-does-not-return-out', mode='aliased'),
+                                      dict(detail0, x=x_abs, aliased=True))
+                except Exception as ex:
+                    ctx.violation(dict(sig0, clause='call-raised', mode='aliased', exc=type(ex).__name__),
+                                  dict(detail0, x=x_abs, exc=str(ex)[:200], aliased=True))
     # --- extension: expr.inverse (where ODL offers one) must invert expr; decided by TLC as Eval(prog, inverse(x)) = x
     if line['lin'] and line['dom'] == 'V' and line['ran'] == 'V' and not sp.big:
         try:
@@ -283,6 +304,15 @@ def replay(body):
                 obs2 = type(ex).__name__
             print('   in-place observed', dumps(obs2))
             bad = bad or obs2 != exp
+            if line['dom'] == 'V' and not (U.leaf_kinds(line['prog']) & ALIAS_UNSAFE_LEAVES):
+                xa = sp.point('V', x_abs)
+                try:
+                    op(xa, out=xa)
+                    obs3, _ = sp.project('V', xa, D)
+                except Exception as ex:
+                    obs3 = type(ex).__name__
+                print('   aliased (out = x) observed', dumps(obs3))
+                bad = bad or obs3 != exp
     bad = bad or bool(op.is_linear) != bool(line['lin'])
     print('REPRODUCED' if bad else 'NOT-REPRODUCED')
     return 1 if bad else 0
